@@ -417,3 +417,78 @@ impl Reference {
         out
     }
 }
+
+/// Independent model of the declared replication of the block each probe sits in (same traversal
+/// order as the builder), for the placement oracle of C19.
+pub fn static_replication(job: &JobSpec) -> BTreeMap<u32, Repl> {
+    struct W {
+        id: u32,
+        out: BTreeMap<u32, Repl>,
+    }
+    impl W {
+        fn tap(&mut self, r: Repl) {
+            self.out.insert(self.id, r);
+            self.id += 1;
+        }
+        fn pipe(&mut self, p: &Pipe) -> Repl {
+            let r = match p.source {
+                SourceSpec::Iter(_) => Repl::One,
+                _ => Repl::Unlimited,
+            };
+            self.tap(r);
+            self.stages(&p.stages, r)
+        }
+        fn stages(&mut self, st: &[Stage], mut r: Repl) -> Repl {
+            for s in st {
+                r = self.stage(s, r);
+            }
+            r
+        }
+        fn comb(c: &Combine, l: Repl, _r: Repl) -> Repl {
+            match c {
+                // forward inputs: the new block inherits the left side's requirements
+                Combine::Merge => l,
+                Combine::Zip => Repl::One,
+                Combine::Join(_, JoinAlgo::BcHash | JoinAlgo::BcSortMerge, _) => l,
+                Combine::Join(..) => Repl::Unlimited,
+            }
+        }
+        fn stage(&mut self, s: &Stage, r: Repl) -> Repl {
+            let o = match s {
+                Stage::Map(_) | Stage::Filter(_) | Stage::FlatMap(_) | Stage::FilterMap(..) | Stage::RichIndex | Stage::Batch(_) => r,
+                Stage::Shuffle | Stage::Broadcast | Stage::KeyedMap(..) | Stage::KeyedAgg { .. } | Stage::CountWindow { .. } => Repl::Unlimited,
+                Stage::Replicate(x) | Stage::Repartition(x, _) => *x,
+                Stage::GlobalAgg { .. } => Repl::One,
+                Stage::Fork { branch, .. } => {
+                    self.stages(branch, r);
+                    r
+                }
+                Stage::Diamond { left, right, comb } => {
+                    let l = self.stages(left, r);
+                    let rr = self.stages(right, r);
+                    Self::comb(comb, l, rr)
+                }
+                Stage::With { other, comb } => {
+                    let o = self.pipe(other);
+                    Self::comb(comb, r, o)
+                }
+                Stage::Route { branches, .. } => {
+                    for b in branches {
+                        self.stages(b, r);
+                    }
+                    Repl::Unlimited
+                }
+                Stage::Replay(l) | Stage::Iterate(l) => {
+                    self.tap(Repl::Unlimited);
+                    self.stages(&l.body, Repl::Unlimited);
+                    Repl::Unlimited
+                }
+            };
+            self.tap(o);
+            o
+        }
+    }
+    let mut w = W { id: 0, out: BTreeMap::new() };
+    w.pipe(&job.pipe);
+    w.out
+}
